@@ -14,6 +14,7 @@
 from __future__ import annotations
 
 import ast
+from engine.util import clone_ast
 import copy
 from typing import Dict, List, Optional
 
@@ -146,7 +147,7 @@ def _ngram_block(fn: ast.AST) -> Optional[ast.If]:
 
 
 def _strip_join(block: ast.If) -> ast.If:
-    b = copy.deepcopy(block)
+    b = clone_ast(block)
     new = []
     for s in b.body:
         if isinstance(s, ast.FunctionDef) and s.name == "space_join":
